@@ -62,6 +62,11 @@ Definition entry (orc : oracle) (cmd : str) (args : list sx) : option sx :=
     let explicit := opt_of_sx hmode_of_sx (a 0%nat) in
     Some (L (map (fun cs => L (map sx_of_comp cs))
                  (residues str load input analysis explicit (init str explicit) (map query_of (sx_list (a 1%nat))))))
+  else if is_cmd cmd "cache_effects" then
+    (* per call of the history: where it appends a decision-log line, and the log-full flag of that line *)
+    let explicit := opt_of_sx hmode_of_sx (a 0%nat) in
+    Some (L (map (fun e => match e with Some (p, f) => L [A p; sx_of_bool f] | None => L [] end)
+                 (effects str load input analysis explicit (init str explicit) (map query_of (sx_list (a 1%nat))))))
   else if is_cmd cmd "pair_walk" then
     (* the walk over a pool of n queries; n and the indices travel as one code point each *)
     Some (L (map (fun k => A [N.of_nat k]) (pair_walk (match sx_str (a 0%nat) with c :: _ => N.to_nat c | [] => 0%nat end))))
